@@ -8,6 +8,8 @@ import AspireModel.Model.Eval
 import AspireModel.Model.CkptFile
 import AspireModel.Model.Ctx
 import AspireModel.Model.Wiring
+import AspireModel.Model.Transforms
+import AspireModel.ErfFloat
 /-
   Pure part of the line-protocol driver: one request line in, one reply line out.
   `Main.lean` only does the IO loop.  First token selects the width (`f64` / `f32`),
@@ -20,9 +22,15 @@ class FloatLike (α : Type) where
   isNan : α → Bool
   negInf : α
   roundNat : α → Nat
+  floor : α → α
+  erf : α → α
+  erfinv : α → α
 
-instance : FloatLike Float := ⟨Float.isNaN, -(1.0/0.0), fun x => (Float.round x).toUInt64.toNat⟩
-instance : FloatLike Float32 := ⟨Float32.isNaN, -(1.0/0.0), fun x => (Float32.round x).toUInt64.toNat⟩
+instance : FloatLike Float :=
+  ⟨Float.isNaN, -(1.0/0.0), fun x => (Float.round x).toUInt64.toNat, Float.floor, ErfFloat.erf, ErfFloat.erfinv⟩
+instance : FloatLike Float32 :=
+  ⟨Float32.isNaN, -(1.0/0.0), fun x => (Float32.round x).toUInt64.toNat, Float32.floor,
+   fun x => (ErfFloat.erf x.toFloat).toFloat32, fun x => (ErfFloat.erfinv x.toFloat).toFloat32⟩
 
 namespace Driver
 variable {α : Type} [Num α] [DecidableLT α] [DecidableLE α] [Scalar α] [FloatLike α]
@@ -386,6 +394,49 @@ def opWiring : P String := do
     (if accepted t r then "1" else "0") ++ " " ++ (match usedSrc t r with | .user => "user" | .ambient => "ambient")
   pure (" ".intercalate [outB (WiringOK t), f .ctor, f .call, f .top])
 
+
+/-! ### parameter transforms (C04, C03): `tfm fwd|inv|fit <cfg> nrows rows…` -/
+def parseKind : P (CoordKind α) := do
+  match (← tok) with
+  | "f" => pure .free
+  | "p" => do let lo ← sc; let hi ← sc; pure (.periodic lo hi)
+  | "b" => do let lo ← sc; let hi ← sc; pure (.bounded lo hi)
+  | t => throw s!"bad kind {t}"
+
+def parseTCfg : P (TCfg α × Nat) := do
+  let d ← nat
+  let kinds ← many (parseKind (α := α)) d
+  let bk ← tok
+  let eps : α ← sc
+  let hasAff ← bool
+  let aff ← if hasAff then do
+      let m : List α ← many sc d; let s : List α ← many sc d; pure (some (m, s))
+    else pure none
+  let sqrt2 : α ← sc; let log2pi : α ← sc
+  let c : TCfg α :=
+    { kinds := kinds, bounded := if bk = "probit" then .probit else .logit, eps := eps, affine := aff,
+      pc := { sqrt2 := sqrt2, log2pi := log2pi, erf := FloatLike.erf, erfinv := FloatLike.erfinv },
+      mod := fmod FloatLike.floor }
+  pure (c, d)
+
+def opTfm : P String := do
+  let dir ← tok
+  let (c, d) ← parseTCfg (α := α)
+  let ddof ← nat
+  let rows ← listOf (many (sc (α := α)) d)
+  match dir with
+  | "fwd" =>
+    let out := rows.map (forwardRow c)
+    pure (outL (out.map (·.1)).flatten ++ " " ++ outL (out.map (·.2)))
+  | "inv" =>
+    let out := rows.map (inverseRow c)
+    pure (outL (out.map (·.1)).flatten ++ " " ++ outL (out.map (·.2)))
+  | "fit" =>
+    let (c1, ys) := fitRows ddof c rows
+    let (m, s) := match c1.affine with | some ms => ms | none => ([], [])
+    pure (outL ys.flatten ++ " " ++ outL m ++ " " ++ outL s)
+  | t => throw s!"bad tfm direction {t}"
+
 def dispatch (op : String) : P String :=
   match op with
   | "weights" => opWeights (α := α)
@@ -410,6 +461,7 @@ def dispatch (op : String) : P String :=
   | "dump" => opDump
   | "ctx" => opCtx
   | "wiring" => opWiring
+  | "tfm" => opTfm (α := α)
   | _ => throw s!"unknown op {op}"
 
 end Driver
